@@ -29,6 +29,7 @@ func checkC13(r *Report, p *Program) {
 	constantSlicesBounded(r, p, "R13.10", 1)
 	// pointer fields of hook answers (customize rules) are nil when the hook leaves them out
 	optionalFieldsChecked(r, p, "R13.11", 10)
+	commaOkValuesUsedWhenOk(r, p, "R13.12", 20)
 	// shouldContinueRolling hands latest.desiredChildMap[name] to ApplyUpdate unchecked: what makes that
 	// non-nil is that syncRevisionClaims keeps, for EVERY revision incl. the latest, only names the latest desires
 	r09_5(r, p)
